@@ -111,12 +111,16 @@ def run(ctx):
 def _run(ctx, rng, base):
     n = ctx.n(300, 16000)
     histories = [list(h) for h in CORPUS]
+    rename_idx = set()      # histories of gen_rename_scenario: op 7 renames a profile of ANOTHER environment
     for i in range(n):
         ln = rng.choice([4, 6, 8, 10, 12, 14, 16, 20])
-        if i % 3 == 0:
+        if i % 11 == 5:
+            rename_idx.add(len(histories))
+            histories.append(L.gen_rename_scenario(rng, ln))
+        elif i % 3 == 0:
             histories.append(L.gen_scenario(rng, ln))
         else:
-            histories.append(L.gen_ops(rng, ln, raw=(i % 10 == 9)))
+            histories.append(L.gen_ops(rng, ln, raw=(i % 4 == 1)))
     results = L.run_histories(base, histories, procs=ctx.n(8, 16))
 
     exprs, cov, lens = [], {}, {}
@@ -130,7 +134,10 @@ def _run(ctx, rng, base):
         ctx.count(1, key)
         if idx in (0, 3) or 6 <= idx < 9:
             ctx.sample(dict(history=[list(o) for o in ops], last_observation=outs[-1]))
-        if fail and not any(o[0] == "rawupdate" for o in ops[:fail[0] + 1]):
+        # (a rename through update_profile inside the current environment can activate a profile the user did not pick,
+        # by design; monitor failures after such an op are not counted - except in the rename scenario, whose op 7
+        # renames a profile of another environment and must leave the current environment's active profile alone)
+        if fail and ((idx in rename_idx and fail[0] == 7) or not any(o[0] == "rawupdate" for o in ops[:fail[0] + 1])):
             mon_fail.append((ops, fail, "corpus" if idx < len(CORPUS) else "random"))
     res = eval_cases(ctx, "llamactl", exprs, ctx.n(24, 300))
     bad = [i for i, z in enumerate(res) if z != 0]
